@@ -7,6 +7,8 @@ from . import tables as T
 from .symobs import call
 
 MODES = ('numeric', 'alphanumeric', 'byte', 'kanji', 'hanzi')
+# ISO format information: error correction level indicator bits (segno.consts.ERROR_LEVEL_* use the same numbers)
+LEVEL_OF_INDICATOR = {1: 'L', 0: 'M', 3: 'Q', 2: 'H'}
 
 
 # ------------------------------------------------------------------ design run + vector export (spec -> code)
@@ -107,7 +109,7 @@ def norm_req(c):
     e = kw.get('error')
     m = kw.get('mode')
     return {'version': 99 if v is None else symobs.version_int(v.upper() if isinstance(v, str) and not v.isdigit() else int(v)),
-            'error': '-' if e is None else str(e).upper(),
+            'error': '-' if e is None else (LEVEL_OF_INDICATOR[e] if isinstance(e, int) else str(e).upper()),
             'mode': 'none' if m is None else str(m).lower(),
             'micro': 'none' if micro is None else ('yes' if micro else 'no'),
             'eci': bool(kw.get('eci', False)), 'boost': bool(kw.get('boost_error', True))}
@@ -270,6 +272,12 @@ def run_c05(rep, tier):
                             if tier == 'thorough' or (n == nmax and boost):
                                 kw2 = {k: x for k, x in kw.items() if k != 'version'}
                                 extra.append(call('make', c, **kw2))
+    # the level may also be given as the integer constant of segno.consts (= the ISO level indicator: L=1, M=0, Q=3, H=2)
+    for ind in (1, 0, 3, 2):
+        for c in ('12345', 'HELLO WORLD', 'Hello world, hello', gen.latin1(r, 60)):
+            for boost in (True, False):
+                extra.append(call('make', c, error=ind, boost_error=boost))
+                extra.append(call('make', c, error=ind, boost_error=boost, micro=False))
     run_vectors(rep, tier, {'C05'}, extra)
     calls = []
     for _ in range(150 if tier == 'quick' else 1500):
